@@ -182,8 +182,11 @@ impl Prop for C06 {
         cfg.globals = false;
         cfg.max_fns = 4;
         let mut pg = PG::new(g, cfg);
-        let p = pg.program();
+        let mut p = pg.program();
         let feat = pg.feat.clone();
+        // a state cell that stays untouched until a gate opens (the WASM host sizes its state
+        // buffer by the highest word touched so far)
+        let gated = g.bool(1, 3) && prog::add_tail_gate(&mut p, g.int(1, 14) as u32);
         let src = prog::render(&p, &Layout::default());
         let inputs = gen_inputs(g);
         let k = g.int(1, 4) as usize;
@@ -193,7 +196,11 @@ impl Prop for C06 {
         for _ in 0..k {
             splits.push(g.int(1, 12) as u64);
         }
-        let mut r = finish(&src, &inputs, &splits, space, feat.classes(), cx);
+        let mut classes = feat.classes();
+        if gated {
+            classes.push("tail-gated-state".into());
+        }
+        let mut r = finish(&src, &inputs, &splits, space, classes, cx);
         for id in off {
             r.count(&format!("generator_switch_off:{id}"), 1);
         }
